@@ -238,6 +238,65 @@ pub fn c19_set_iters<const N: usize, const M: usize, const W: u8>() {
     same_list_any_order(&buf, false, &rest[..rn], &rest[..rn]);
 }
 
+/// An element whose Debug output depends on the formatter: first byte is upper case iff the alternate flag reached it, and it
+/// spans two lines, so that the indentation std's pretty printer adds after a newline inside an entry is observable too.
+#[derive(PartialEq, Eq, Clone, Copy)]
+pub struct E(pub u8);
+impl fmt::Debug for E {
+    fn fmt(&self, f: &mut fmt::Formatter<'_>) -> fmt::Result {
+        let c = if f.alternate() { b'A' } else { b'a' } + self.0 % 26;
+        f.write_char(c as char)?;
+        f.write_char('\n')?;
+        f.write_char((b'0' + self.0 % 10) as char)
+    }
+}
+
+/// `{:?}` (W=1) and `{:#?}` (W=2) of a map / set whose elements render over two lines and look at the alternate flag:
+/// the flag must be passed down to the entries and nested lines must be indented exactly as the standard builders do
+pub fn c19_nested<const N: usize, const W: u8>() {
+    let mut m: Map<D, E, N> = empty_map();
+    let mut s: Set<E, N> = empty_set();
+    let n = vf::any_usize();
+    vf::assume(n <= N);
+    let mut i = 0;
+    while i < N {
+        let (k, v) = (vf::any_u8(), vf::any_u8());
+        if i < n { vf::assume(!m.contains_key(&D(k)) && !s.contains(&E(v))); m.insert(D(k), E(v)); s.insert(E(v)); }
+        i += 1;
+    }
+    let alt = W == 2;
+    let (mut buf, mut exp) = (Buf::new(), Buf::new());
+    let r = if alt { write!(buf, "{:#?}", m) } else { write!(buf, "{:?}", m) };
+    vf::check(r.is_ok(), 1903);
+    exp.push(b'{');
+    if alt && n > 0 { exp.push(b'\n'); }
+    let mut first = true;
+    for (k, v) in m.iter() {
+        let (c, d) = (if alt { b'A' } else { b'a' } + v.0 % 26, b'0' + v.0 % 10);
+        if alt { for _ in 0..4 { exp.push(b' '); } exp.push(k.dbg()); exp.push(b':'); exp.push(b' '); exp.push(c); exp.push(b'\n'); for _ in 0..4 { exp.push(b' '); } exp.push(d); exp.push(b','); exp.push(b'\n'); }
+        else { if !first { exp.push(b','); exp.push(b' '); } exp.push(k.dbg()); exp.push(b':'); exp.push(b' '); exp.push(c); exp.push(b'\n'); exp.push(d); }
+        first = false;
+    }
+    exp.push(b'}');
+    same(&buf, &exp);
+    let (mut buf, mut exp) = (Buf::new(), Buf::new());
+    let r = if alt { write!(buf, "{:#?}", s) } else { write!(buf, "{:?}", s) };
+    vf::check(r.is_ok(), 1903);
+    exp.push(b'{');
+    if alt && n > 0 { exp.push(b'\n'); }
+    let mut first = true;
+    for v in s.iter() {
+        let (c, d) = (if alt { b'A' } else { b'a' } + v.0 % 26, b'0' + v.0 % 10);
+        if alt { for _ in 0..4 { exp.push(b' '); } exp.push(c); exp.push(b'\n'); for _ in 0..4 { exp.push(b' '); } exp.push(d); exp.push(b','); exp.push(b'\n'); }
+        else { if !first { exp.push(b','); exp.push(b' '); } exp.push(c); exp.push(b'\n'); exp.push(d); }
+        first = false;
+    }
+    exp.push(b'}');
+    same(&buf, &exp);
+    vf::reach(1);
+    vf::check(m.len() == n && s.len() == n, 1904);
+}
+
 /// C06: formatting with width / fill / alignment / precision / sign flags into the fixed sink makes no allocator
 /// call and does not fail (the rendered text under such flags is not specified by C19, so it is not compared)
 pub fn c06_fmt_specs<const N: usize, const W: u8>() {
@@ -258,12 +317,14 @@ pub fn c06_fmt_specs<const N: usize, const W: u8>() {
 }
 
 harnesses! {
+    c19_nested: [1, 1] [1, 2];
     c06_fmt_specs: [1, 0] [1, 1] [1, 2] [1, 3] [1, 4];
     c19_map: [0, 0] [0, 1] [0, 2] [1, 0] [1, 1] [1, 2] [2, 0] [2, 1] [2, 2] [1, 3] [2, 3];
     c19_set: [0, 0] [0, 1] [0, 2] [1, 0] [1, 1] [1, 2] [2, 0] [2, 1] [2, 2] [1, 3] [2, 3];
     c19_map_iters: [1, 0] [1, 1] [1, 2] [1, 3] [1, 4] [1, 5] [1, 6] [1, 7] [1, 8] [2, 0] [2, 1] [2, 2] [2, 3] [2, 4] [2, 5] [2, 6] [2, 7] [2, 8];
     c19_set_iters: [1, 1, 0] [1, 1, 1] [1, 1, 2];
     @deep
+    c19_nested: [2, 1] [2, 2];
     c19_map: [3, 0] [3, 1] [3, 2] [3, 3];
     c19_set: [3, 0] [3, 1] [3, 2] [3, 3];
     c19_map_iters: [3, 0] [3, 1] [3, 2] [3, 3] [3, 4] [3, 5] [3, 6] [3, 7] [3, 8];
